@@ -141,8 +141,16 @@ func TestC17(t *testing.T) {
 		}
 		// options
 		d := &ech.Dialer[*fakeConn]{RequireECH: rapid.Bool().Draw(t, "require_ech"), MaxConcurrency: rapid.IntRange(1, 3).Draw(t, "maxconc"), ConcurrencyDelay: time.Millisecond, Timeout: 5 * time.Second}
-		if rapid.IntRange(0, 2).Draw(t, "public_name") == 0 {
+		badPublicName := false
+		switch rapid.IntRange(0, 8).Draw(t, "public_name") {
+		case 0, 1, 2:
 			d.PublicName = "bootstrap.example"
+		case 3:
+			// a public name no ECH config can carry (> 255 bytes): whenever the bootstrap config
+			// is needed Dial fails; it never falls back to dialing without it
+			d.PublicName = strings.Repeat("p", 300)
+			badPublicName = true
+			cl = append(cl, "public_name_too_long")
 		}
 		var tc *tls.Config
 		callerList := []byte(nil)
@@ -344,6 +352,8 @@ func TestC17(t *testing.T) {
 				if !bytes.Equal(first.ECH, e.ech) {
 					ev.Violation(t, "C17", rp, "%s was dialed with ECH list %q, its HTTPS record publishes %q", addr, first.ECH, e.ech)
 				}
+			case badPublicName:
+				ev.Violation(t, "C17", rp, "%s was dialed (ECH list %q) although the PublicName bootstrap config cannot be built", addr, first.ECH)
 			case d.PublicName != "":
 				specs, err := ech.ParseConfigList(first.ECH)
 				if err != nil || len(specs) != 1 || string(specs[0].PublicName) != d.PublicName {
@@ -389,6 +399,7 @@ func TestC17(t *testing.T) {
 			for _, addr := range dnsfx.SortedKeys(expKeys) {
 				e := exp[addr]
 				refused := d.RequireECH && callerList == nil && e.ech == nil && d.PublicName == ""
+				refused = refused || (badPublicName && callerList == nil) // Dial gives up before any attempt
 				if !refused && len(perAddr[addr]) == 0 {
 					ev.Violation(t, "C17", rp, "no attempt succeeded (%v) yet %s, a target of %q, was never dialed", derr, addr, e.host)
 				}
